@@ -1,7 +1,7 @@
 (* C11 -- each UDP packet ID is accepted at most once, in any arrival order.
    Only statements, `exact`, pins and Print Assumptions live here. *)
 From Coq Require Import NArith List Bool.
-From Octo Require Import Model.PacketWindow Proofs.PacketWindowList Generated.Params Model.SsUdp Proofs.SsUdpFacts.
+From Octo Require Import Model.PacketWindow Proofs.PacketWindowList Proofs.PacketWindowCorollaries Generated.Params Model.SsUdp Proofs.SsUdpFacts.
 Import ListNotations.
 Open Scope N_scope.
 
@@ -28,6 +28,25 @@ Theorem C11_refused_invisible : forall ids1 id ids2 limit,
   snd (pw_validate s id limit) = false ->
   snd (pw_run (fst (pw_validate s id limit)) ids2 limit) = snd (pw_run s ids2 limit).
 Proof. exact pw_refused_invisible. Qed.
+
+(* the property's own sentence, position by position and without an accumulator: the verdict on the id arriving after ANY history
+   `pre` is "below the limit, not among the ids accepted during pre, not more than WINDOW_SIZE behind the highest of them",
+   whatever follows *)
+Theorem C11_verdict_at : forall (pre : list N) (id : N) (post : list N) (limit : N),
+  nth (length pre) (snd (pw_run pw_new (pre ++ id :: post) limit)) false
+  = spec_accept (rev (select pre (snd (pw_run pw_new pre limit)))) id limit.
+Proof. exact pw_verdict_at. Qed.
+
+(* at most once: the ids accepted along ANY history are pairwise distinct, and all below the limit *)
+Theorem C11_accepted_pairwise_distinct : forall (ids : list N) (limit : N),
+  NoDup (select ids (snd (pw_run pw_new ids limit))).
+Proof. exact pw_accepted_nodup. Qed.
+Theorem C11_accepted_below_limit : forall (ids : list N) (limit : N),
+  Forall (fun id => id < limit) (select ids (snd (pw_run pw_new ids limit))).
+Proof. exact pw_accepted_below_limit. Qed.
+Example C11_select_example :
+  select [0; 1; 1; 9; 8; 8129; 2] (snd (pw_run pw_new [0; 1; 1; 9; 8; 8129; 2] (2^64 - 1))) = [0; 1; 9; 8; 8129; 2].
+Proof. vm_compute. reflexivity. Qed.
 
 (* tie A: the constants the model was proved with are the constants of the source *)
 Theorem C11_constants_match_source :
@@ -108,10 +127,16 @@ Check @C11_server_refused_keeps_session.
 Check @C11_server_refused_invisible.
 Check @C11_server_at_most_once.
 Check @C11_server_unresolved_keeps_session.
+Check C11_verdict_at.
+Check C11_accepted_pairwise_distinct.
+Check C11_accepted_below_limit.
 Check (C11_history : forall (ids : list N) (limit : N), snd (pw_run pw_new ids limit) = snd (spec_run [] ids limit)).
 Print Assumptions C11_history.
 Print Assumptions C11_step.
 Print Assumptions C11_limit.
+Print Assumptions C11_verdict_at.
+Print Assumptions C11_accepted_pairwise_distinct.
+Print Assumptions C11_accepted_below_limit.
 Print Assumptions C11_refused_invisible.
 Print Assumptions C11_constants_match_source.
 Print Assumptions C11_callsite_limits.
